@@ -269,6 +269,13 @@ def check_nav(c, st):
                                                port=p0.port, username=p0.username, password=p0.password)
                     if denotes_itself(nd):
                         dest, ref = nd, nd.to_text()
+            rs_, ra_ = RE_SPLIT.match(ref).groups()[:2]
+            if ra_ is not None and not rs_:
+                # a reference WITH an authority part (even an empty one, as in '////a' - the text of a prepared
+                # reference object whose path begins with an empty segment): outside the statement, which speaks of
+                # references without one or with their own scheme and host
+                st.count('skipped:reference-has-an-authority-part')
+                return None
             eff_refs.append(ref)
             prev_text = cur.to_text()
             prev_rootless = not any(cur.path_parts[:1] == (x,) for x in ('',)) if cur.path_parts else True
